@@ -20,7 +20,7 @@ LEVEL_NOTE = ("Five lenient acceptances of the code are listed known findings an
               "by a theorem.")
 TECHNIQUE = "Lean 4 proof (decoder gates) + source-derived schema table checked by decide + exhaustive single-point mutation correspondence"
 LEAN_MODULE = "Hg.Props.C15"
-THEOREMS = ["Hg.C15.schema_matches", "Hg.C15.decode_keys_gate", "Hg.C15.hasKeys_spec", "Hg.C15.decode_entries", "Hg.C15.decode_count", "Hg.C15.decode_unknown_type", "Hg.C15.decode_header_gate", "Hg.C15.decode_complete"]
+THEOREMS = ["Hg.C15.schema_matches", "Hg.C15.decode_keys_gate", "Hg.C15.hasKeys_spec", "Hg.C15.decode_entries", "Hg.C15.decode_count", "Hg.C15.decode_bag_nodup", "Hg.C15.decode_unknown_type", "Hg.C15.decode_header_gate", "Hg.C15.decode_complete"]
 CASES = {"quick": 200, "thorough": 6000}
 RULE = ("valid documents (toJson of random trees in random states) and their single-point structural mutations at every position: "
         "delete a key, add a key (names drawn from every record kind of the format), retype a value over {null,bool,number,string,"
@@ -142,8 +142,6 @@ def excluded(m, doc):
         return True   # a JSON boolean where a number is expected reads as 1/0 (Python: bool is a numbers.Real); for Bag values the model does not mirror it
     if action == "seti" and path and path[-1] == "v" and isinstance(arg[1], bool):
         return True   # same, for a component of a vector-valued Bag entry
-    if action in ("dup", "set", "seti") and _dup_bag_value(apply_mutation(doc, m)):
-        return True   # known finding C15-bag-duplicate-value (the last of two equal Bag values wins)
     if action == "set" and (arg[0] == "name" or arg[0].endswith(":name")) and arg[0] not in _node(doc, path) and isinstance(arg[1], str):
         return True   # known finding C15-optional-name-key (accepted where the emitter never writes it, then dropped/moved)
     node = _node(doc, path)
